@@ -35,7 +35,7 @@ ASSUMPTIONS = [
     "run returns failed, the report names SyntaxError and the line",
 ]
 NSHARDS = {'quick': 16, 'thorough': 16}
-RULE += (' Fault kinds added during the build: a raising __repr__ with printed output, run-time exceptions with a lineno of their own, exceptions under IGNORE_WANT, a doctest that closes the stream its output is captured in.')
+RULE += (' Fault kinds added during the build: a raising __repr__ with printed output, run-time exceptions with a lineno of their own, exceptions under IGNORE_WANT, a doctest that closes the stream its output is captured in, several failing doctests that raise one shared exception object (a module-level sentinel) with every report rendered after the last doctest ran.')
 
 KINDS = {
     'gotwant': (['>>> print("good")', 'FAILMARK bad'], 'GotWantException'),
@@ -130,7 +130,8 @@ VERBOSITIES = [0, 1, 2, 3]
 def required_cells(tier):
     return (['kind:' + k for k in KIND_NAMES] +
             ['pos:' + p for p in POSITIONS] + ['shape:' + s for s in SHAPES] + ['verbose:%d' % v for v in VERBOSITIES] +
-            ['runner:DocTest.run', 'runner:doctest_module', 'runner:cli', 'rendered', 'compile-only-fault'])
+            ['runner:DocTest.run', 'runner:doctest_module', 'runner:cli', 'rendered', 'compile-only-fault', 'kind:shared_instance',
+             'rendered-after-all-ran', 'traceback-own-frame-first'])
 
 
 def shape_lines(rng, shape):
@@ -358,6 +359,138 @@ def check_case(ctx, idx, kind, pos, shape, verbose, ctxno, cli=False):
         sys.modules.pop(modname, None)
 
 
+def check_shared_instance(ctx, idx, verbose):
+    """Two failing doctests of one process raise the very same exception object (a module-level sentinel raised by a
+    helper of the module under test); every report is rendered only after all doctests have run (seeded change S09m)."""
+    from xdoctest import core
+    rng = random.Random(ctx.case_seed(idx * 977 + 5))
+    uid = 'sh%dx%d' % (idx, ctx.seed)
+    modname = 'eshr_%d_%d_%d_zz' % (ctx.seed, ctx.shard, idx)
+    path = os.path.join(ctx.tmp, modname + '.py')
+    out = ['class Invalid(ValueError):', '    pass', '', '_INVALID = Invalid("input must not be negative")', '',
+           'def validate(x):', '    if x < 0:', '        raise _INVALID', '    return x', '']
+    n = rng.randint(3, 5)
+    failing = sorted(rng.sample(range(n), rng.randint(2, min(3, n))))
+    expect = []
+    for k in range(n):
+        marker = 'FAIL%sx%d' % (uid, k)
+        L = shape_lines(rng, rng.choice(SHAPES))
+        if k in failing:
+            L += ['>>> validate(-%d)  # %s' % (k + 1, marker), '>>> print("not reached")']
+        else:
+            L += ['>>> print(validate(%d))' % k, '%d' % k]
+        out += ['def fn%d():' % k, '    """', '    Example:'] + ['        ' + ln for ln in L] + ['    """', '']
+        expect.append(('fn%d' % k, k in failing, marker))
+    src = '\n'.join(out) + '\n'
+    flines = src.split('\n')
+    with open(path, 'w') as f:
+        f.write(src)
+    case = {'index': idx, 'kind': 'shared_instance', 'verbose': verbose}
+    ctx.nontrivial(src)
+
+    def bad(mech, msg, **kw):
+        ctx.violation(mech, '%s\n  fault=shared_instance verbose=%d\n--- module ---\n%s' % (msg, verbose, src), case, **kw)
+
+    ok = True
+    try:
+        with warnings.catch_warnings(record=True), contextlib.redirect_stdout(io.StringIO()):
+            warnings.simplefilter('always')
+            exs = list(core.parse_doctestables(path, style='google', analysis='static'))
+        if [e.callname for e in exs] != [cn for cn, _, _ in expect]:
+            bad('collection', 'collected %r' % ([e.callname for e in exs],))
+            return
+        sums = []
+        for e in exs:
+            ctx.evaluation()
+            e.mode = 'native'
+            try:
+                with contextlib.redirect_stdout(io.StringIO()):
+                    sums.append(e.run(on_error='return', verbose=verbose))
+            except BaseException as ex:
+                bad('run-raised', 'DocTest.run(on_error="return") raised %s: %r' % (type(ex).__name__, ex),
+                    exc=type(ex).__name__)
+                return
+            ctx.event('doctest_runs')
+        # every report is rendered after the last doctest has run
+        for e, s, (cn, fails, marker) in zip(exs, sums, expect):
+            if not fails:
+                if not s['passed']:
+                    bad('neighbour-failed', 'healthy doctest %s reports %r' % (cn, s['exc_info']))
+                    ok = False
+                continue
+            if not s['failed']:
+                bad('not-failed', 'doctest %s raising the shared exception reports passed=%s' % (cn, s['passed']))
+                ok = False
+                continue
+            try:
+                with contextlib.redirect_stdout(io.StringIO()):
+                    lines = e.repr_failure()
+                rep = '\n'.join(lines)
+            except BaseException as ex:
+                bad('render-raised', 'repr_failure() raised %s: %r' % (type(ex).__name__, ex), exc=type(ex).__name__)
+                ok = False
+                continue
+            ctx.event('failure_reports_rendered')
+            if 'REASON: Invalid' not in rep:
+                bad('render-no-type', 'the report does not name the exception type Invalid: first line %r' % (lines[:1],))
+                ok = False
+                continue
+            m = None
+            for ln in lines:
+                mm = LINE_RE.search(ln)
+                if mm and mm.group(1) == path:
+                    m = mm
+                    break
+            if marker not in rep or m is None:
+                bad('render-no-line', 'the report of %s does not show its failing source line (%s):\n%s' % (
+                    cn, marker, rep[:1500]))
+                ok = False
+                continue
+            ln_no = int(m.group(2))
+            if not (1 <= ln_no <= len(flines)) or marker not in flines[ln_no - 1]:
+                bad('render-wrong-line', 'the report of %s, rendered after the other doctests ran, points at line %d (%r); '
+                    'its failing line (%s) is line %d' % (
+                        cn, ln_no, flines[ln_no - 1] if 1 <= ln_no <= len(flines) else None, marker,
+                        1 + next(i for i, x in enumerate(flines) if marker in x)))
+                ok = False
+                continue
+            # the traceback section: its first doctest frame is the frame of this doctest (frames of the doctests that
+            # raised the same object earlier may follow: CPython chains them behind), none belongs to a doctest that
+            # ran later
+            sec = []
+            on = False
+            for ln in lines:
+                for sub in str(ln).split('\n'):
+                    if sub.strip().endswith('DOCTEST TRACEBACK'):
+                        on = True
+                    elif sub.strip().endswith('DOCTEST REPRODUCTION'):
+                        on = False
+                    elif on:
+                        sec.append(sub)
+            frames = re.findall(r'File "<doctest:[^"]*::(fn\d+):\d+>"', '\n'.join(sec))
+            if not frames:
+                ctx.event('shared_instance_no_traceback_section')
+                continue
+            ctx.event('traceback_sections_read')
+            later = [cn2 for cn2, _, _ in expect[expect.index((cn, fails, marker)) + 1:]]
+            if frames[0] != cn or any(f in later for f in frames):
+                bad('render-foreign-traceback', 'the traceback section of the report of %s, rendered after the other doctests '
+                    'ran, lists the doctest frames %r: it describes a failure of another doctest\n%s' % (
+                        cn, frames, '\n'.join(sec)[:1500]))
+                ok = False
+                continue
+            ctx.cell('traceback-own-frame-first')
+        if ok:
+            ctx.cell('kind:shared_instance')
+            ctx.cell('rendered-after-all-ran')
+    finally:
+        try:
+            os.unlink(path)
+        except OSError:
+            pass
+        sys.modules.pop(modname, None)
+
+
 def run_shard(ctx):
     warnings.simplefilter('ignore')
     combos = list(itertools.product(KIND_NAMES, POSITIONS, SHAPES, VERBOSITIES))
@@ -371,10 +504,14 @@ def run_shard(ctx):
         kind, pos, shape, verbose = combos[i % len(combos)]
         ctxno = i // len(combos) + 1000 * ctx.seed
         check_case(ctx, i, kind, pos, shape, verbose, ctxno, cli=(i % cli_every == 0))
+    for j in range(ctx.pick(3, 24)):
+        check_shared_instance(ctx, ctx.shard * 1000 + j, j % 4)
 
 
 def replay(case, ctx):
     warnings.simplefilter('ignore')
+    if case.get('kind') == 'shared_instance':
+        return check_shared_instance(ctx, case['index'], case['verbose'])
     check_case(ctx, case['index'], case['kind'], case['pos'], case['shape'], case['verbose'], case['ctxno'],
                cli=case.get('cli', False))
 
